@@ -173,7 +173,8 @@ func TestVerifBounded_C12_Shards(t *testing.T) {
 		lb := 3 * time.Hour
 		var recent []int
 		for i, in := range insts {
-			if in.regAgo < lb || (in.roAgo > 0 && in.roAgo < lb) {
+			// a change stamped with the very second the window starts in may have happened inside the window
+			if in.regAgo <= lb || (in.roAgo > 0 && in.roAgo <= lb) {
 				recent = append(recent, i)
 			}
 		}
@@ -182,7 +183,7 @@ func TestVerifBounded_C12_Shards(t *testing.T) {
 			var before []verifC12Inst
 			for i, in := range insts {
 				if i == v {
-					if in.regAgo < lb {
+					if in.regAgo <= lb {
 						continue // not registered yet
 					}
 					in.readOnly = !in.readOnly // the flag was toggled inside the window
